@@ -373,8 +373,33 @@ class Histories(SubCheck):
                 "    q = Path(%r)\n    q.reverse(); q.reverse()\n    assert p == q\n" % (case["d"], case["history"], case["d"]))
 
 
+def refused_check(svg):
+    """a refused edit through a subpath view (index out of range) must not change what the view covers: reversing it
+    afterwards is the reversal of the whole subpath"""
+    from props import failsafe
+
+    def fresh():
+        p = svg.Path("M0,0 L4,0 L4,3 Z M9,9 L1,1 Q2,5 3,3 z M20,20 L21,21")
+        return [p, p.subpath(0), p.subpath(1)]
+    attempts = {
+        "del view[99]": lambda o: o[1].__delitem__(99),
+        "del view[len(path)]": lambda o: o[1].__delitem__(len(o[0])),
+        "view[99] = Line": lambda o: o[1].__setitem__(99, svg.Line((0, 0), (1, 1))),
+        "view[99]": lambda o: o[1][99],
+        "del view2[-99]": lambda o: o[2].__delitem__(-99),
+    }
+    follows = {
+        "view0.reverse": lambda o: (o[1].reverse(), [repr(s) for s in o[0]], len(o[1]))[1:],
+        "view1.reverse": lambda o: (o[2].reverse(), [repr(s) for s in o[0]], len(o[2]))[1:],
+        "path.reverse": lambda o: (o[0].reverse(), [repr(s) for s in o[0]])[-1],
+        "len/d": lambda o: [len(o[1]), len(o[2]), o[1].d(), o[2].d()],
+    }
+    sc = [dict(name=an, fresh=fresh, attempt=a, follow=follows) for an, a in attempts.items()]
+    return failsafe.Refused(svg, sc)
+
+
 def build(tier, seed, svg):
-    return [Histories(svg, tier)]
+    return [Histories(svg, tier), refused_check(svg)]
 
 
 def m_subpath_without_move(d):
